@@ -392,7 +392,9 @@ impl<const BITS: usize, const LIMBS: usize> Uint<BITS, LIMBS> {
             r.limbs[LIMBS - 1 - i - limbs] = (x >> bits) | carry;
             carry = (x << (word_bits - bits - 1)) << 1;
         }
-        (r, carry != 0)
+        // Non-zero bits are also lost in the limbs that are dropped entirely.
+        let overflow = carry != 0 || self.limbs[..limbs].iter().any(|&limb| limb != 0);
+        (r, overflow)
     }
 
     /// Right shift by `rhs` bits.
